@@ -555,3 +555,22 @@ Proof.
     + unfold prefix_component. rewrite Hp'. reflexivity.
     + rewrite Hev, Hev'. reflexivity.
 Qed.
+
+(* hence the ancestors chain: every entry, read again from scratch, is the previous one without its last component *)
+Fixpoint comp_chain (xs : list (list byte)) : Prop :=
+  match xs with
+  | a :: (b :: _) as r => w_components b = removelast (w_components a) /\ comp_chain r
+  | _ => True
+  end.
+Lemma w_ancestors_fuel_chain : forall fuel cur,
+  comp_chain (ancestors_fuel wstate wcomp w_init w_nextb w_remaining wc_is_normal wc_is_parent wc_is_current fuel cur).
+Proof.
+  induction fuel as [|f IH]; intros cur; [exact I|].
+  cbn [ancestors_fuel]. destruct cur as [p|]; [|exact I].
+  fold (w_parent p). specialize (IH (w_parent p)).
+  destruct f as [|f']; [exact I|]. cbn [ancestors_fuel] in *.
+  destruct (w_parent p) as [q|] eqn:Eq; [|exact I].
+  cbn [comp_chain]. split; [apply (w_parent_reparse p q Eq) | exact IH].
+Qed.
+Theorem w_ancestors_chain l : comp_chain (w_ancestors l).
+Proof. unfold w_ancestors, ancestors. apply w_ancestors_fuel_chain. Qed.
